@@ -118,6 +118,18 @@ def build_table(case):
                  'DE63': (base[5:] * 35)[:999], 'DE94': '12345'},
                 {'MTI': '1644', 'DE31': '', 'DE48': '0023003CT6', 'DE63': (base[9:] * 35)[:997 - n % 3], 'DE94': '1'}]
         return cols, rows
+    if case.get('fillrun') is not None:
+        # values made of the character whose byte is 0x40 in the output codec ('@' in latin_1, the space in the
+        # EBCDIC codecs): an UNBLOCKED file of these has 0x40 0x40 wherever a 1014-blocked file has its block
+        # trailers, and is still an unblocked file when the user says so
+        ch = '@' if case['enc'] == 'latin_1' else ' '
+        n = case['fillrun']
+        rows = [{'MTI': '1240', 'DE63': ch * n, 'DE31': '', 'DE94': ''},
+                {'MTI': '1240', 'DE63': ch * 999, 'DE31': ch * 99, 'DE94': ch * 99},
+                {'MTI': '1644', 'DE63': 'A' + ch * 997 + 'Z', 'DE31': ch * 50, 'DE94': ''},
+                {'MTI': '1240', 'DE63': ch * 999, 'DE31': 'x', 'DE94': ch * 99},
+                {'MTI': '1240', 'DE63': ch * 999, 'DE31': ch, 'DE94': 'y'}]
+        return ['MTI', 'DE31', 'DE63', 'DE94'], rows
     cols = case['cols']
     rows = []
     for r in range(case['rows']):
@@ -217,7 +229,7 @@ def check_case(case, acc, workdir=None):
         w.writerows(rows)
         acc.case((tuple(cols), case.get('rows'), tuple(case.get('variant', [])), case.get('omit'), case['enc'],
                   case['blocked'], case['entry'], case.get('sweep'), case.get('day'), case.get('year'),
-                  case.get('envcfg')),
+                  case.get('envcfg'), case.get('fillrun')),
                  nontrivial=len(cols) > 1,
                  outcome='%s/%s' % (case['entry'], case['enc']))
         try:
@@ -289,6 +301,12 @@ def enumerate_cases(tier, seed):
         for enc, blocked in ((('latin_1', True),) if n % 7 else (('latin_1', True), ('cp500', True), ('cp037', False))):
             cases.append({'sweep': n, 'enc': enc, 'blocked': blocked, 'entry': 'func' if n % 50 else 'cli',
                           'seed': seed})
+    for n in range(1, 1000, 13 if tier == 'quick' else 3):
+        for k, enc in enumerate(CODECS):
+            entry = ('cli', 'argv', 'func', 'argv_cfg')[(n + k) % 4]
+            cases.append({'fillrun': n, 'enc': enc, 'blocked': False, 'entry': entry, 'seed': seed})
+            if n % 5 == 0:
+                cases.append({'fillrun': n, 'enc': enc, 'blocked': True, 'entry': entry, 'seed': seed})
     return cases
 
 
